@@ -4,7 +4,7 @@ import z3
 
 from . import front
 from .ty import (TInt, TReal, TBool, TStr, TNone, TAny, TTuple, TRec, TList, TDict, TSet, TOpt,
-                 TUnion, TObj, TFunc)
+                 TUnion, TObj, TFunc, TLin)
 from .vals import *  # noqa
 from .symex import t_and, t_or, t_not, t_ite, to_real, Frame, State
 from .interp import NUM, VPoison, VAccum, Effect, RecFrame
@@ -226,7 +226,8 @@ class StmtMixin(ContractMixin):
     def bind_target(self, st, t, v, stmt=None):
         if isinstance(t, ast.Name):
             fr = st.frame
-            # writes go to the frame that owns the name? Python: local unless nonlocal; keep local
+            if isinstance(v, H):
+                v = self.alloc(st, v)
             fr.env[t.id] = v
             return
         if isinstance(t, (ast.Tuple, ast.List)):
@@ -763,6 +764,30 @@ class StmtMixin(ContractMixin):
                     groups.append([ef])
             else:
                 rest_effects.append(ef)
+        # several guarded appends to one list (different paths of the body): one bag with merged elements
+        merged, appends = [], {}
+        for ef in rest_effects:
+            if ef.kind == "append" and not ef.binders:
+                key = None
+                for kk in appends:
+                    if kk[0] == ef.root and self.same_path(kk[1], ef.path):
+                        key = kk
+                        break
+                if key is None:
+                    key = (ef.root, ef.path)
+                    appends[key] = []
+                appends[key].append(ef)
+            else:
+                merged.append(ef)
+        for key, efs in appends.items():
+            if len(efs) == 1:
+                merged.append(efs[0])
+                continue
+            val = self.force(st, efs[-1].value)
+            for e in reversed(efs[:-1]):
+                val = self.v_ite(e.guard, self.force(st, e.value), val)
+            merged.append(Effect("append", key[0], key[1], val, t_or(*[e.guard for e in efs]), (), where=efs[0].where))
+        rest_effects = merged
         for grp in groups:
             self.apply_const_cell_sets(st, grp, list(loop_binders), k, s)
         for ef in rest_effects:
@@ -782,6 +807,9 @@ class StmtMixin(ContractMixin):
                 continue
             if ef.kind in ("set", "add"):
                 self.apply_cell_effect(st, ef, binders, k, s)
+                continue
+            if ef.kind == "append":
+                self.apply_append(st, ef, binders, s)
                 continue
             raise Unsupported(f"effect {ef.kind}")
 
@@ -821,6 +849,21 @@ class StmtMixin(ContractMixin):
             return True
         except Unsupported:
             return False
+
+    def apply_append(self, st, ef, binders, s):
+        if st.rec and ef.root in getattr(st.rec[-1], "before", ()) and ef.root not in st.rec[-1].fresh:
+            outer_g = t_and(*st.pc[st.rec[-1].pc_len:])
+            st.rec[-1].effects.append(Effect("append", ef.root, ef.path, ef.value, t_and(outer_g, ef.guard), binders, where=ef.where))
+            return
+        ref = VRef(ef.root, ef.path)
+        h = self.resolve(st, ref)
+        if isinstance(h, HList) and not h.items:
+            new = HBag(binders, ef.guard, ef.value)
+        elif isinstance(h, HBag):
+            raise Unsupported("several summarised loops append to the same list")
+        else:
+            raise Unsupported("summarised append to a non-empty list")
+        self.write_h(st, ref, new)
 
     def set_existing(self, st, name, v):
         f = st.frame
